@@ -68,6 +68,26 @@ def drive(tier):
             k2, wtxid = call(m.GetHash)
             R.add("ids.obj", {"kind": "tx", "obj": gen.tx_json(d2), "mutable": True, "after_edit": True},
                   {"txid": b2l(txid) if k1 == "ret" else [-1], "wtxid": b2l(wtxid) if k2 == "ret" else [-1], "cached": []})
+        # finer edits: the witness *container* stays, one stack is assigned in place (the usual signing workflow: build,
+        # look, fill in witnesses) - in both directions, null -> non-null and non-null -> null
+        if objs and d["vin"]:
+            from bitcoin.core import CTxInWitness
+            from bitcoin.core.script import CScriptWitness
+            for first_stack in ([], [b"\x30" * 71, b"\x02" * 33]):
+                dn = copy.copy(d)
+                dn["wit"] = [first_stack if i == len(d["vin"]) - 1 else [] for i in range(len(d["vin"]))] if first_stack else None
+                k, m = call(gen.build_tx, dn, True, bool(first_stack))     # default witness / witness vector given as a list
+                if k == "exc" or not isinstance(getattr(m.wit, "vtxinwit", None), list):
+                    continue
+                call(m.GetTxid), call(m.GetHash), call(m.has_witness), call(m.serialize), call(hash, m)
+                new_stack = [b"\x30" * 71, b"\x02" * 33] if not first_stack else []
+                k, _ = call(m.wit.vtxinwit.__setitem__, len(d["vin"]) - 1, CTxInWitness(CScriptWitness(new_stack)))
+                if k == "exc":
+                    continue
+                k1, txid = call(m.GetTxid)
+                k2, wtxid = call(m.GetHash)
+                R.add("ids.obj", {"kind": "tx", "obj": gen.proj_tx(m), "mutable": True, "after_edit": "witness-stack-in-place"},
+                      {"txid": b2l(txid) if k1 == "ret" else [-1], "wtxid": b2l(wtxid) if k2 == "ret" else [-1], "cached": []})
         eq = [[bool(a == b) for b in objs] for a in objs]
         ne_ok = all(bool(a != b) == (not eq[i][j]) for i, a in enumerate(objs) for j, b in enumerate(objs))
         ph = hash_classes([hash(o) for o in objs])
